@@ -44,6 +44,13 @@ def main():
     meta = {"property": prop, "name": name, "patch_from": str(src), "ran": []}
     try:
         rc, out = sh(["git", "apply", str((src / "patch.diff").resolve())], cwd=wt)
+        if rc != 0:
+            # a later fix: commit rewrote the lines the seed touches: use the same mutation rebased on HEAD
+            for alt in sorted(src.glob("patch.rebased-*.diff"), reverse=True):
+                rc, out2 = sh(["git", "apply", str(alt.resolve())], cwd=wt)
+                if rc == 0:
+                    meta["patch_used"] = alt.name
+                    break
         meta["patch_applies"] = rc == 0
         if rc != 0:
             print("PATCH DOES NOT APPLY:", out)
@@ -124,7 +131,7 @@ def finish(meta, src, name, keep):
                                                      if any("no-failing-input-found" not in l for l in v["violations"])]
         except Exception:  # noqa: BLE001
             pass
-    for f in ("patch.diff", "demo.py", "notes.md"):
+    for f in ["patch.diff", "demo.py", "notes.md"] + [a.name for a in src.glob("patch.rebased-*.diff")]:
         if (src / f).exists() and (src / f).resolve() != (out / f).resolve():
             shutil.copy(src / f, out / f)
     (out / "meta.json").write_text(json.dumps(meta, indent=1))
